@@ -22,6 +22,15 @@ func genExecCase(t *rapid.T, so gen.SchemaOpts, do gen.DocOpts, wo gen.WorldOpts
 	vars := gen.Variables(t, s, d)
 	w, regime := gen.World(t, s, d, op, vars, wo)
 	c := &ExecCase{Schema: s, Doc: d, OpName: op, Vars: vars, World: w, Regime: regime}
+	declares := false
+	for _, o := range d.Operations() {
+		declares = declares || len(o.Vars) > 0
+	}
+	if declares && gen.Chance(t, 60, "altVars") {
+		for i, n := 0, gen.Intn(t, 1, 2, "nAltVars"); i < n; i++ {
+			c.AltVars = append(c.AltVars, gen.Variables(t, s, d))
+		}
+	}
 	if rapid.IntRange(0, 3).Draw(t, "layoutKind") == 0 {
 		c.Layout = &model.Layout{Seps: rapid.SliceOfN(rapid.IntRange(0, model.NumASCIISeparators-1), 1, 7).Draw(t, "seps")}
 	}
@@ -50,6 +59,23 @@ func execOracle(c *ExecCase) (string, *ref.Result) {
 		}
 		if d := compareExec(want, lr.Res); d != "" {
 			return fmt.Sprintf("entry %s: %s\n  document: %s\n  variables: %s", entry, d, text, canonJSON(c.goVars())), want
+		}
+	}
+	// the prepared plan again with other values of the variables, then with the first ones: every
+	// execution is answered as the algorithm prescribes for its own variables
+	for i := 0; i <= len(c.AltVars) && plan != nil && len(c.AltVars) > 0; i++ {
+		c2 := *c
+		wantI := want
+		if i < len(c.AltVars) {
+			c2.Vars = c.AltVars[i]
+			wantI = ref.Execute(c.Schema, c.Doc, c.OpName, c2.Vars, c.World)
+		}
+		lr, err := runEntry(b, &c2, text, "plan", &plan)
+		if err != nil {
+			return fmt.Sprintf("HARNESS(plan reuse): %v\n%s", err, text), want
+		}
+		if d := compareExec(wantI, lr.Res); d != "" {
+			return fmt.Sprintf("entry plan, execution %d of one prepared plan (earlier executions used other variable values): %s\n  document: %s\n  variables: %s\n  variables of the earlier executions: %s", i+3, d, text, canonJSON(c2.goVars()), canonJSON(c.goVars())), want
 		}
 	}
 	return "", want
